@@ -185,10 +185,6 @@ impl MultiRecordLog {
         payloads: T,
     ) -> Result<AppendOutcome, AppendError> {
         let next_position = self.in_mem_queues.next_position(queue)?;
-        if self.in_mem_queues.get_queue(queue)?.is_full() {
-            // the last record is at u64::MAX: nothing can come after it.
-            return Err(AppendError::Past);
-        }
         if let Some(position) = position_opt {
             // we accept position in the future, and move forward as required.
             if position.checked_add(1) == Some(next_position) {
@@ -204,7 +200,15 @@ impl MultiRecordLog {
         let file_number = self.record_log_writer.current_file().clone();
 
         let mut multi_record_spare_buffer = std::mem::take(&mut self.multi_record_spare_buffer);
-        MultiRecord::serialize(payloads, position, &mut multi_record_spare_buffer);
+        let mut payloads = payloads;
+        MultiRecord::serialize(payloads.by_ref(), position, &mut multi_record_spare_buffer);
+        if payloads.next().is_some() {
+            // there are more records than positions left below u64::MAX: nothing was written
+            // and nothing changes.
+            multi_record_spare_buffer.clear();
+            self.multi_record_spare_buffer = multi_record_spare_buffer;
+            return Err(AppendError::Past);
+        }
         if multi_record_spare_buffer.is_empty() {
             self.multi_record_spare_buffer = multi_record_spare_buffer;
             // empty transaction: don't persist it
